@@ -84,6 +84,7 @@ Print Assumptions c08_memory_order_obligations.
 (* the READY bit is above any realistic waiter count *)
 Theorem c08_ready_mask_is_bit31 : READY_MASK = 2 ^ 31.
 Proof. exact fu_ready_mask. Qed.
+Print Assumptions c08_ready_mask_is_bit31.
 
 (* non-vacuity: a well-formed program, a reachable state with a parked waiter and a pending wake *)
 Example c08_wf_example : wf 0 [[OSet]; [OGet; OFin]; [OWait 2]].
@@ -134,9 +135,11 @@ Print Assumptions c08_publication_callback_node.
 (* what goes wrong when the release is dropped (the execution is printed by the check's search) *)
 Theorem c08_publication_relaxed_refuted : mp_xchg_safe Relaxed Acquire = false /\ mp_xchg_safe Release Relaxed = false.
 Proof. split; vm_compute; reflexivity. Qed.
+Print Assumptions c08_publication_relaxed_refuted.
 
 (* lifetime: Promise::set_value works on its own reference to the shared context, so callbacks / woken waiters that
    drop the Promise and every Future while the callback list is still being walked cannot destroy the value under
    the remaining callbacks (regenerated fact; the scheduler run of harness/conc/c08_lifetime.cpp exercises it) *)
 Theorem c08_set_value_keeps_context_alive : set_value_pins_context = true.
 Proof. reflexivity. Qed.
+Print Assumptions c08_set_value_keeps_context_alive.
